@@ -221,6 +221,8 @@ func cliMain(args []string) {
 					runCliSearch(env, c, emit)
 				} else if asStr(c["fam"]) == "clipipe" {
 					runCliPipe(env, c, emit)
+				} else if asStr(c["fam"]) == "cachedir" {
+					runCacheDir(env, c, emit)
 				}
 			}
 		}
